@@ -556,7 +556,7 @@ def configs(tier):
 def main():
     rep = Report("C12", "exploration")
     quick = rep.tier == "quick"
-    maxsize, depth = (3, 2) if quick else (4, 3)
+    maxsize, depth = (3, 2) if quick else (5, 3)
     xml = make_schema()
     gen = build.gen_headers(xml, "rel")
     if gen["rc"] != 0:
